@@ -248,12 +248,18 @@ int io::stream::dispatch(const class dispatch &sd)
 	if (!_srm) {
 		return BadArgument;
 	}
-	if (!_srm->_rd.pending_message()
-	 && !_srm->_rd.advance()) {
-		if (_mpt_stream_fread(&_srm->_info) < 0) {
-			return BadArgument;
+	if (!_srm->_rd.pending_message()) {
+		int ret = mpt_queue_recv(&_srm->_rd);
+		// decoder needs work space for available data: stream dispatch enlarges buffered queue
+		if (ret < 0 && ret != MissingBuffer) {
+			if (_mpt_stream_fread(&_srm->_info) < 0) {
+				return BadArgument;
+			}
+			return 0;
 		}
-		return 0;
+		if (ret >= 0) {
+			mpt_queue_shift(&_srm->_rd);
+		}
 	}
 	return mpt_stream_dispatch(_srm, dispatch::stream_dispatch, const_cast<class dispatch *>(&sd));
 }
